@@ -25,6 +25,15 @@ CLAIMS = {
             "messages must round-trip. BlockOption.decode is additionally translated to z3 bit-vectors (E2).",
             "reference codec vf/refcodec.py written from the RFC; byte-string lengths concrete per obligation; option numbers by index or pre-populated enum ranges; CPython UTF-8 codec trusted",
             TECH_E1 + "; AST->z3 bit-vector translation for BlockOption.decode", "DESIGN.md 5 C01"),
+    "C12": ("ReplayWindow.is_valid/strike_out/initialize_* are translated from the repository source to z3 bit-vectors; one "
+            "strike_out step from ANY state satisfying the representation invariant is shown (unsat of each negated claim) to "
+            "preserve the invariant, never accept a number twice, never re-validate, keep everything above the highest seen "
+            "number valid, and only move forward - an inductive step covering histories of any length for the enumerated window "
+            "sizes and all numbers < 2^40. unprotect() is additionally driven through arrival sequences (authentic/replayed/"
+            "forged, by symbolic index) against a reference window model, incl. the uninitialised-window Echo recovery.",
+            "ideal AEAD/HKDF/CBOR stand-ins (cryptography, cbor2 are not installed); translator validated on the doctest sequence each run; window sizes enumerated",
+            "AST->z3 bit-vector translation of the real ReplayWindow (inductive step, unsat queries) + CrossHair symbolic execution of unprotect over ideal crypto stubs",
+            "DESIGN.md 5 C12"),
     "C14": ("From every symbolic pre-state (per remote: exchange open, retransmitted once, 0..2 queued) built through the real "
             "send_message API, every event sequence of depth 2 (quick) / 3 (thorough) over 14 event kinds is explored on the real "
             "MessageManager and compared step by step with a reference NSTART=1 queue model (wire log identity and order, failure "
